@@ -713,6 +713,8 @@ class SimExecutor(DiscExecutor):
                 b = self.fresh_bool("first_visit")
                 st.events.append(("seen_insert", b))
                 return B(b)
+            if re.search(r"^Vec::<NonZero<u64>>::push$", f):
+                st.events.append(("fp_push",))
             if re.search(r"Vec::<<M as Model>::Action>::is_empty$", f):
                 b = self.fresh_bool("no_action_left")
                 st.events.append(("actions_empty", b))
@@ -887,6 +889,10 @@ def sim_obligations(mir_text, lib_rs):
                     must("C03,C11", f"{tagp}: T-accurate: an eventually discovery is recorded only while the property has none yet (bits of decided properties go stale)", g, structural_ok=False)
                 ok_dead = bool(dead) and _check(base, g, *lemma, z3.Not(dead[-1][1]))[0] == z3.unsat
                 ok_cycle = bool(seen) and not [e for e in rnd[rnd.index(seen[-1]):] if e[0] in ("condition", "actions")] and _check(base, g, *lemma, seen[-1][1])[0] == z3.unsat
+                if ok_cycle and not ok_dead:
+                    k_seen = rnd.index(seen[-1])
+                    must("C03", f"{tagp}: Sim-cycle: the state found repeated is appended to the path before the trace ends (the reported path shows the cycle it closes)", g,
+                         structural_ok=any(e[0] == "fp_push" for e in rnd[:k_seen]))
                 must("C03,C11", f"{tagp}: Sim-end: an eventually discovery is recorded only when the trace ended in a dead end (no action left) or closed a cycle - not when the chosen successor merely left the boundary", g,
                      structural_ok=(ok_dead or ok_cycle))
     if min(n.values()) == 0:
